@@ -189,6 +189,13 @@ def run(ctx):
         if len(grid) < 3:
             continue
         kappa, et = rng.choice([(0.0, 3.5), (1.5e-3, 0.0), (1.5e-3, 4.0), (2e-4, 1.0)])
+        if k % 6 == 4 and params["transmissivity"]["type"] == "spline" and len(params["transmissivity"]["K_knots_km_d"]) >= 3:
+            # neighbouring conductivities driven together by a calibration, nearly but not exactly equal (a closed form
+            # with log K differences cancels catastrophically there); the grid reaches above that layer
+            kk = params["transmissivity"]["K_knots_km_d"]
+            q_ = 0          # the lowest layer: every level above its upper knot inherits the error
+            kk[q_ + 1] = float(kk[q_]) * (1.0 + rng.choice([3e-13, 1e-12, -2e-12]))
+            ctx.count("parameter_sets_with_nearly_equal_neighbouring_conductivities")
         if k % 3 == 1 and params["transmissivity"]["type"] == "spline":
             # the grid reaches the lowest conductivity knot and below it (where transmissivity IS the stated minimum), the
             # minimum typed as a whole number (`minimum_transmissivity_m2_d: 2` is an int after yaml.safe_load), and the
